@@ -167,6 +167,9 @@ func typeArea(context *api.Context) (*pb.QueryProto, error) {
 // Return a query that will match features that intersect the given area.
 // Deprecated. Use intersecting.
 func within(context *api.Context, a b6.Area) (b6.Query, error) {
+	if err := requireArea("within", a); err != nil {
+		return nil, err
+	}
 	return b6.IntersectsMultiPolygon{MultiPolygon: a.MultiPolygon()}, nil
 }
 
